@@ -170,6 +170,25 @@ def models(args) -> int:
         if abs(float(q) - float(np.percentile(np.array(a), p))) > 1e-9:
             okp = False
     check("exact rational percentile agrees with numpy.percentile to 1e-9 on 3000 random inputs", okp)
+    from mdsim.props.c08 import percentile_is_exact_in_floats
+
+    rr = random.Random(7)
+    wrong = 0
+    n_exact = 0
+    for _ in range(60000):
+        n = rr.randint(1, 40)
+        a = [rr.randint(1, 12) for _ in range(n)]
+        if rr.random() < 0.2:
+            a = [a[0]] * n
+        p = rr.choice([0.0, 10.0, 25.0, 50.0, 75.0, 100.0, 33.3, round(rr.uniform(0, 100), 2), float(rr.randint(0, 100)), rr.uniform(0, 100)])
+        q = exact_percentile(a, p)
+        got = int(np.percentile(np.array(a), p))
+        if percentile_is_exact_in_floats(a, p):
+            n_exact += 1
+            wrong += got != math.floor(q)
+        elif abs(q - round(q)) >= Fraction(1, 10**9):
+            wrong += got != math.floor(q)
+    check(f"wherever the model grants no tolerance, int(np.percentile) == floor(exact percentile) (60000 random inputs, {n_exact} in the exact class)", wrong == 0, f"{wrong} disagreements")
     conn = np.zeros((2, 3, 3), dtype=np.bool_)
     conn[1, 0, 0] = conn[1, 0, 1] = conn[0, 0, 2] = conn[0, 1, 2] = True
     check("graph: component / bfs on a corridor", graph.component_of(conn, (0, 0)) == {(0, 0), (0, 1), (0, 2), (1, 2), (2, 2)} and graph.bfs_dist(conn, (0, 0))[(2, 2)] == 4)
